@@ -1,0 +1,16 @@
+//go:build verif
+
+// Contracts for package trust, checked by /verif/govc (comment-only; not part of any normal build).
+
+package trust
+
+// ---- C01: "trusted for the issuer" means: the issuer, rendered as a string, EQUALS an entry of the list configured
+// for exactly this credential type (no prefix, case folding or wildcard) ----
+//@ func (ssi.URI).String
+//@   trusted
+//@   pure
+//@ func (*Config).IsTrusted
+//@   prop C01
+//@   pure heap
+//@   loop 1 invariant forall k int :: 0 <= k && k < $i ==> tc.issuersPerType[credentialType.String()][k] != issuer.String()
+//@   ensures [trusted-means-listed-for-this-type] result <==> (exists k int :: 0 <= k && k < len(tc.issuersPerType[credentialType.String()]) && tc.issuersPerType[credentialType.String()][k] == issuer.String())
